@@ -5,11 +5,10 @@
    a dependency (Unicode), so every theorem is stated for an ARBITRARY class function.
    `preprocess_text class cs tag` is the model of scripts::preprocess_text (Model/Preprocess.v);
    `dispatch_action tag` is what ScriptType::from + the match in preprocess_text select for a tag. *)
-From AV Require Import Base.Prelude Gen.PreprocessTables Model.Preprocess
+From AV Require Import Base.Prelude Gen.PreprocessTables Model.Preprocess Model.PreprocessRef
   Proofs.PreprocessSort Proofs.PreprocessRuns Proofs.PreprocessMarks Proofs.PreprocessThai
   Proofs.PreprocessIndic Proofs.PreprocessTop.
 From Coq Require Import Permutation Sorted.
-Import RefTags.
 Open Scope Z_scope.
 
 (* ---- 0. totality and the functional specification ---- *)
